@@ -20,7 +20,7 @@ def Phi (s mid : Nat) (l : L) : Nat :=
 /-- 1 if the event is a `coap_send` of (s, mid) that is accepted (it is refused only when the same message id is
 already waiting in the session's delay queue) -/
 def accW (s mid : Nat) (l : L) : Ev → Nat
-  | .submit s' _ m' _ =>
+  | .submit s' true m' _ =>
     if (s' = s ∧ m' = mid) ∧ ¬ (gate (l.getS s') true = true ∧ (l.getS s').delayq.any (fun x => x.mid = m') = true)
     then 1 else 0
   | _ => 0
@@ -29,6 +29,32 @@ def accW (s mid : Nat) (l : L) : Ev → Nat
 def accC (s mid : Nat) : L → List Ev → Nat
   | _, [] => 0
   | l, ev :: evs => accW s mid l ev + accC s mid (Msg.step l ev) evs
+
+/-- number of nodes of (s, mid) that `coap_cancel_all_messages(session s', token)` removes (mirrors `cancelToken`) -/
+def cancelCount (s mid : Nat) : Nat → L → Nat → Nat → Nat
+  | 0, _, _, _ => 0
+  | fuel + 1, l, s', tok =>
+    match removeTok l.q.nodes s' tok with
+    | (none, _) => 0
+    | (some n, rest) =>
+      (if n.sess = s ∧ n.mid = mid then 1 else 0) +
+        cancelCount s mid fuel
+          (if n.con then release { l with q := { l.q with nodes := rest } } s'
+           else { l with q := { l.q with nodes := rest } }) s' tok
+
+/-- number of nodes of (s, mid) the event takes out of the send queue WITHOUT an outcome NACK (TOO_MANY_RETRIES / RST):
+an ACK that finds the message (the silent completion), an invalid-code ACK that finds it (reported as NACK "bad
+response"), a response carrying its token (`coap_cancel_all_messages`) -/
+def remW (s mid : Nat) (l : L) : Ev → Nat
+  | .rxAck s' m' => if (s' = s ∧ m' = mid) ∧ (removeNode l.q.nodes s' m').1 ≠ none then 1 else 0
+  | .rxBad s' m' => if (s' = s ∧ m' = mid) ∧ (removeNode l.q.nodes s' m').1 ≠ none then 1 else 0
+  | .rxNon s' _ tok => if (l.getS s').sockOpen then cancelCount s mid (l.q.nodes.length + 1) l s' tok else 0
+  | _ => 0
+
+/-- `remW` along the run -/
+def remC (s mid : Nat) : L → List Ev → Nat
+  | _, [] => 0
+  | l, ev :: evs => remW s mid l ev + remC s mid (Msg.step l ev) evs
 
 theorem midC_append (mid : Nat) (a b : List Node) : midC mid (a ++ b) = midC mid a + midC mid b := by
   induction a with
@@ -86,10 +112,13 @@ def Psi (s mid : Nat) (l : L) : Nat := pendC s mid l.q.nodes + midC mid (l.getS 
 theorem phi_eq (s mid : Nat) (l : L) : Phi s mid l = nackC s mid l.out + Psi s mid l := by
   simp only [Phi, Psi]; omega
 
-theorem txC_cons_other (s mid : Nat) (o : Out) (out : List Out) (h : ∀ t s' m' k c, o ≠ .tx t s' m' k c) :
+theorem txC_cons_other (s mid : Nat) (o : Out) (out : List Out) (h : ∀ t s' m' k, o ≠ .tx t s' m' k true) :
     txC s mid (o :: out) = txC s mid out := by
   cases o with
-  | tx t s' m' k c => exact absurd rfl (h t s' m' k c)
+  | tx t s' m' k c =>
+    cases c with
+    | true => exact absurd rfl (h t s' m' k)
+    | false => simp [txC]
   | _ => simp [txC]
 
 /-- what a function of the model does to the counters of (s, mid): outcome NACKs + queued + delayed is conserved,
@@ -196,7 +225,7 @@ theorem keeps_setS_keep (s mid : Nat) (l : L) (s' : Nat) (se : Sess) (h : se.del
   · simp only [Psi]; rw [hd]; exact Nat.le_refl _
 
 theorem keeps_emit_other (s mid : Nat) (l : L) (o : Out) (h1 : nackW s mid o = 0)
-    (h2 : ∀ t s' m' k c, o ≠ .tx t s' m' k c) : Keeps s mid l (l.emit o) := by
+    (h2 : ∀ t s' m' k, o ≠ .tx t s' m' k true) : Keeps s mid l (l.emit o) := by
   refine ⟨?_, Nat.le_refl _, fun _ => txC_cons_other s mid o l.out h2⟩
   simp only [Phi]
   show nackC s mid (o :: l.out) + _ + _ = _
@@ -334,11 +363,85 @@ theorem dueLoop_keeps {par : Nat → Sess} {P : Nat → Nat → Nat → Prop} (h
           rw [nothingDue_iff]; intro h r' hh; rw [hn] at hh; cases hh; omega
         rw [dueLoop_not_due _ l hnd]; exact Keeps.refl _ _ _
 
+theorem pendC_removeTok_some (s mid : Nat) : ∀ (l : List Node) (s' tok : Nat) (n : Node) (rest : List Node),
+    removeTok l s' tok = (some n, rest) →
+    pendC s mid l = pendC s mid rest + (if n.sess = s ∧ n.mid = mid then 1 else 0)
+  | [], s', tok, n, rest, h => by simp [removeTok] at h
+  | a :: r, s', tok, n, rest, h => by
+    unfold removeTok at h
+    split at h
+    · split at h
+      · simp at h; obtain ⟨rfl, rfl⟩ := h; simp [pendC]
+      · simp at h; obtain ⟨rfl, rfl⟩ := h
+        simp only [pendC]; omega
+    · rcases hr : removeTok r s' tok with ⟨res, r'⟩
+      simp only [hr] at h
+      simp at h; obtain ⟨rfl, rfl⟩ := h
+      have := pendC_removeTok_some s mid r s' tok n r' hr
+      simp only [pendC]; omega
+
+theorem removedTok_finv {par : Nat → Sess} {P : Nat → Nat → Nat → Prop} (l : L) (s' tok : Nat) (n : Node)
+    (rest : List Node) (hrm : removeTok l.q.nodes s' tok = (some n, rest)) (hi : FInv False par P l) :
+    FInv False par P { l with q := { l.q with nodes := rest } } := by
+  have hsub := absP_removeTok_sub (mxOf par) l.q.base l.q.nodes s' tok
+  have hall := Coap.Pdu.all_removeTok (nodeOk_tfree par P) l.q.nodes s' tok hi.nodes
+  rw [hrm] at hsub hall
+  exact ⟨hi.base, hi.sess, hall, fun p hp' => hi.pend p (hsub p hp'), hi.outs⟩
+
+theorem cancelToken_keeps {par : Nat → Sess} {P : Nat → Nat → Nat → Prop} (hp : GPar par) (s mid : Nat) :
+    ∀ (fuel : Nat) (l : L) (s' tok : Nat), FInv False par P l →
+      Phi s mid (cancelToken fuel l s' tok) + cancelCount s mid fuel l s' tok = Phi s mid l ∧
+      Psi s mid (cancelToken fuel l s' tok) ≤ Psi s mid l ∧
+      (Psi s mid l = 0 → txC s mid (cancelToken fuel l s' tok).out = txC s mid l.out) := by
+  intro fuel
+  induction fuel with
+  | zero => intro l s' tok _; exact ⟨rfl, Nat.le_refl _, fun _ => rfl⟩
+  | succ f ih =>
+    intro l s' tok hi
+    rcases hrm : removeTok l.q.nodes s' tok with ⟨_ | n, rest⟩
+    · have h1 : cancelToken (f + 1) l s' tok = l := by simp only [cancelToken, hrm]
+      have h2 : cancelCount s mid (f + 1) l s' tok = 0 := by simp only [cancelCount, hrm]
+      rw [h1, h2]
+      exact ⟨rfl, Nat.le_refl _, fun _ => rfl⟩
+    · obtain ⟨l1, hl1⟩ : ∃ l1, l1 = ({ l with q := { l.q with nodes := rest } } : L) := ⟨_, rfl⟩
+      obtain ⟨l2, hl2⟩ : ∃ l2, l2 = (if n.con then release l1 s' else l1) := ⟨_, rfl⟩
+      have h1 : cancelToken (f + 1) l s' tok = cancelToken f l2 s' tok := by
+        simp only [cancelToken, hrm, hl2, hl1]
+      have h2 : cancelCount s mid (f + 1) l s' tok =
+          (if n.sess = s ∧ n.mid = mid then 1 else 0) + cancelCount s mid f l2 s' tok := by
+        simp only [cancelCount, hrm, hl2, hl1]
+      rw [h1, h2]
+      have hi1 : FInv False par P l1 := by rw [hl1]; exact removedTok_finv l s' tok n rest hrm hi
+      have hpc := pendC_removeTok_some s mid l.q.nodes s' tok n rest hrm
+      have e1 : Phi s mid l1 + (if n.sess = s ∧ n.mid = mid then 1 else 0) = Phi s mid l := by
+        rw [hl1]
+        simp only [Phi]
+        show nackC s mid l.out + pendC s mid rest + midC mid (l.getS s).delayq + _ = _
+        omega
+      have e2 : Psi s mid l1 + (if n.sess = s ∧ n.mid = mid then 1 else 0) = Psi s mid l := by
+        rw [hl1]
+        simp only [Psi]
+        show pendC s mid rest + midC mid (l.getS s).delayq + _ = _
+        omega
+      have hk : Keeps s mid l1 l2 ∧ FInv False par P l2 := by
+        rw [hl2]
+        split
+        · exact ⟨release_keeps hp s mid _ s' hi1, (release_finv hp _ s' hi1 (futF _)).1⟩
+        · exact ⟨Keeps.refl _ _ _, hi1⟩
+      have h3 := ih l2 s' tok hk.2
+      have h4p := hk.1.phi
+      have h4s := hk.1.psi
+      refine ⟨by omega, by omega, ?_⟩
+      intro h0
+      rw [h3.2.2 (by omega), hk.1.tx (by omega)]
+      have : txC s mid l1.out = txC s mid l.out := by rw [hl1]
+      exact this
+
 /-! ### events -/
 
 /-- what one event does to the counters of (s, mid) -/
 def StepKeeps (s mid : Nat) (l : L) (ev : Ev) : Prop :=
-  Phi s mid (Msg.step l ev) + ackW s mid l ev = Phi s mid l + accW s mid l ev ∧
+  Phi s mid (Msg.step l ev) + remW s mid l ev = Phi s mid l + accW s mid l ev ∧
   Psi s mid (Msg.step l ev) ≤ Psi s mid l + accW s mid l ev ∧
   (Psi s mid l = 0 → accW s mid l ev = 0 → txC s mid (Msg.step l ev).out = txC s mid l.out)
 
@@ -377,19 +480,29 @@ theorem step_keeps {par : Nat → Sess} {P : Nat → Nat → Nat → Prop} (hp :
   | setNow t => exact ⟨rfl, Nat.le_refl _, fun _ _ => rfl⟩
   | prepare =>
     have hk := dueLoop_keeps hp s mid (dueFuel l) l hi
-    simp only [Msg.step, prepare, ackW, accW, Nat.add_zero]
+    simp only [Msg.step, prepare, remW, accW, Nat.add_zero]
     rcases hpc : prepareCore l with ⟨l', w⟩
     have e : l' = dueLoop (dueFuel l) l := by rw [← prepareCore_fst, hpc]
     subst e
     have hk2 := Keeps.trans hk (keeps_emit_other s mid _ (.wait (dueLoop (dueFuel l) l).now w) rfl (by intros; simp))
     exact ⟨hk2.phi, hk2.psi, fun h0 _ => hk2.tx h0⟩
   | submit s' con m' r =>
-    obtain ⟨hcon, hT, h64⟩ := hok
-    subst hcon
     obtain ⟨ca, dq, hg, hle, hdq⟩ := hi.sess s'
     obtain ⟨hest, hopen, hns, h256⟩ := hp s'
     have hso : (l.getS s').sockOpen = true := by rw [hg]; exact hopen
-    simp only [ackW, Nat.add_zero]
+    simp only [remW, Nat.add_zero]
+    cases con with
+    | false =>
+      have he : (l.getS s').est = true := by rw [hg]; exact hest
+      have hM : Msg.step l (.submit s' false m' r) =
+          (l.emit (.tx l.now s' m' 0 false)).emit (.sub (some m')) := by
+        simp [Msg.step, submit, hso, gate, he]
+      rw [hM]
+      have hk := Keeps.trans (keeps_emit_other s mid l (.tx l.now s' m' 0 false) rfl (by intros; simp))
+        (keeps_emit_other s mid _ (.sub (some m')) rfl (by intros; simp))
+      simp only [accW, Nat.add_zero]
+      exact ⟨hk.phi, hk.psi, fun h0 _ => hk.tx h0⟩
+    | true =>
     by_cases hroom : ca < (par s').nstart
     · have hgt : gate (l.getS s') true = false := by
         have : ¬ ((l.getS s').conActive ≥ (l.getS s').nstart) := by rw [hg]; simp only []; omega
@@ -498,13 +611,13 @@ theorem step_keeps {par : Nat → Sess} {P : Nat → Nat → Nat → Prop} (hp :
       | none => exact ⟨Keeps.refl _ _ _, hi1⟩
       | some n => exact ⟨release_keeps hp s mid _ s' hi1, (release_finv hp _ s' hi1 (futF _)).1⟩
     have hk := Keeps.trans hk1.1 (afterRx_keeps hp s mid _ hk1.2)
-    have := removed_then s' m' hk (ackW s mid l (.rxAck s' m')) rfl
+    have := removed_then s' m' hk (remW s mid l (.rxAck s' m')) rfl
     exact ⟨this.1, this.2.1, fun h0 _ => this.2.2 h0⟩
   | rxRst s' m' =>
     obtain ⟨ca, dq, hg, hle, hdq⟩ := hi.sess s'
     have hso : (l.getS s').sockOpen = true := by rw [hg]; exact (hp s').2.1
     obtain ⟨hi1, _, hkey⟩ := removed_finv l s' m' hi (futF l)
-    simp only [Msg.step, hso, if_true, accW, ackW, Nat.add_zero]
+    simp only [Msg.step, hso, if_true, accW, remW, Nat.add_zero]
     -- the removed node comes back as its NACK
     have hmain : Phi s mid (rxRst l s' m') = Phi s mid l ∧ Psi s mid (rxRst l s' m') ≤ Psi s mid l ∧
         (Psi s mid l = 0 → txC s mid (rxRst l s' m').out = txC s mid l.out) ∧ FInv False par P (rxRst l s' m') := by
@@ -542,10 +655,49 @@ theorem step_keeps {par : Nat → Sess} {P : Nat → Nat → Nat → Prop} (hp :
     have hk := afterRx_keeps hp s mid _ hmain.2.2.2
     refine ⟨by rw [hk.phi, hmain.1], Nat.le_trans hk.psi hmain.2.1, fun h0 _ => ?_⟩
     rw [hk.tx (by have := hmain.2.1; omega), hmain.2.2.1 h0]
-  | rxNon s' m' tok => exact absurd hok (by simp [EvG])
-  | rxBad s' m' => exact absurd hok (by simp [EvG])
+  | rxNon s' m' tok =>
+    obtain ⟨ca, dq, hg, hle, hdq⟩ := hi.sess s'
+    have hso : (l.getS s').sockOpen = true := by rw [hg]; exact (hp s').2.1
+    simp only [Msg.step, hso, if_true, accW, remW, Nat.add_zero]
+    have hc := cancelToken_keeps hp s mid (l.q.nodes.length + 1) l s' tok hi
+    have hcf := (cancelToken_finv hp (l.q.nodes.length + 1) l s' tok hi (futF l)).1
+    have hke := keeps_emit_other s mid (cancelToken (l.q.nodes.length + 1) l s' tok)
+      (.rsp (cancelToken (l.q.nodes.length + 1) l s' tok).now s' m') rfl (by intros; simp)
+    have hfe : FInv False par P (rxNon l s' m' tok) := finv_emit_other _ hcf ⟨by intros; simp, by intros; simp⟩
+    have hk := Keeps.trans hke (afterRx_keeps hp s mid _ hfe)
+    have hp1 : Phi s mid (afterRx (rxNon l s' m' tok)) = Phi s mid (cancelToken (l.q.nodes.length + 1) l s' tok) :=
+      hk.phi
+    have hp2 : Psi s mid (afterRx (rxNon l s' m' tok)) ≤ Psi s mid (cancelToken (l.q.nodes.length + 1) l s' tok) :=
+      hk.psi
+    have hc1 := hc.1
+    have hc2 := hc.2.1
+    refine ⟨by omega, by omega, fun h0 _ => ?_⟩
+    have h3 : txC s mid (afterRx (rxNon l s' m' tok)).out =
+        txC s mid (cancelToken (l.q.nodes.length + 1) l s' tok).out := hk.tx (by omega)
+    rw [h3, hc.2.2 h0]
+  | rxBad s' m' =>
+    obtain ⟨ca, dq, hg, hle, hdq⟩ := hi.sess s'
+    have hso : (l.getS s').sockOpen = true := by rw [hg]; exact (hp s').2.1
+    obtain ⟨hi1, _, _⟩ := removed_finv l s' m' hi (futF l)
+    simp only [Msg.step, hso, if_true, accW, Nat.add_zero]
+    have hk1 : Keeps s mid { l with q := { l.q with nodes := (removeNode l.q.nodes s' m').2 } } (rxBad l s' m') ∧
+        FInv False par P (rxBad l s' m') := by
+      unfold rxBad
+      rcases hrm : removeNode l.q.nodes s' m' with ⟨sent, rest⟩
+      rw [hrm] at hi1
+      cases sent with
+      | none => exact ⟨Keeps.refl _ _ _, hi1⟩
+      | some n =>
+        exact ⟨Keeps.trans (release_keeps hp s mid _ s' hi1)
+            (keeps_emit_other s mid _ _ (by simp [nackW, obsM]) (by intros; simp)),
+          finv_emit_other _ (release_finv hp _ s' hi1 (futF _)).1 ⟨by intros; simp, by intros; simp⟩⟩
+    have hk := Keeps.trans hk1.1 (afterRx_keeps hp s mid _ hk1.2)
+    have := removed_then s' m' hk (remW s mid l (.rxBad s' m')) rfl
+    exact ⟨this.1, this.2.1, fun h0 _ => this.2.2 h0⟩
   | hold s' => exact absurd hok (by simp [EvG])
-  | connect s' => exact absurd hok (by simp [EvG])
+  | connect s' =>
+    have hk := connected_keeps hp s mid l s' hi
+    exact ⟨hk.phi, hk.psi, fun h0 _ => hk.tx h0⟩
   | disconnect s' => exact absurd hok (by simp [EvG])
 
 /-! ### whole runs -/
@@ -553,7 +705,7 @@ theorem step_keeps {par : Nat → Sess} {P : Nat → Nat → Nat → Prop} (hp :
 theorem run_conserve_M {par : Nat → Sess} {P : Nat → Nat → Nat → Prop} (hp : GPar par) (s mid : Nat) :
     ∀ (evs : List Ev) (l : L), FInv False par P l → RunG l evs →
       (∀ s mid r, Ev.submit s true mid r ∈ evs → P s mid (calcTimeout (par s).atI (par s).atF (par s).arfI (par s).arfF r)) →
-      Phi s mid (Msg.run l evs) + ackC s mid l evs = Phi s mid l + accC s mid l evs := by
+      Phi s mid (Msg.run l evs) + remC s mid l evs = Phi s mid l + accC s mid l evs := by
   intro evs
   induction evs with
   | nil => intro l _ _ _; rfl
@@ -562,7 +714,7 @@ theorem run_conserve_M {par : Nat → Sess} {P : Nat → Nat → Nat → Prop} (
     have hi1 := step_finv (pu := False) hp l ev hi hin.1 (fun h => h.elim) (fun s mid r h => hP s mid r (by simp [h]))
     have h1 := (step_keeps hp s mid l ev hi hin.1).1
     have h2 := ih _ hi1 hin.2 (fun s mid r h => hP s mid r (by simp [h]))
-    simp only [Msg.run, List.foldl_cons, ackC, accC] at h2 ⊢
+    simp only [Msg.run, List.foldl_cons, remC, accC] at h2 ⊢
     omega
 
 theorem run_quiet_M {par : Nat → Sess} {P : Nat → Nat → Nat → Prop} (hp : GPar par) (s mid : Nat) :
@@ -810,7 +962,7 @@ theorem W_setS_keep (s mid mx : Nat) (l : L) (s' : Nat) (se : Sess) (h : se.dela
   have hd := delayq_setS_keep l s' s se h
   simp only [W]; rw [hd]; rfl
 
-theorem W_emit_other (s mid mx : Nat) (l : L) (o : Out) (h2 : ∀ t s' m' k c, o ≠ .tx t s' m' k c) :
+theorem W_emit_other (s mid mx : Nat) (l : L) (o : Out) (h2 : ∀ t s' m' k, o ≠ .tx t s' m' k true) :
     W s mid mx (l.emit o) = W s mid mx l := by
   simp only [W]
   show txC s mid (o :: l.out) + _ + _ = _
@@ -868,26 +1020,26 @@ theorem drain_W {par : Nat → Sess} {P : Nat → Nat → Nat → Prop} (hp : GP
         · rw [getS_setS_ne _ hss]
           simp only [txC, hss, false_and, if_false, Nat.zero_add]
 
+theorem connected_W {par : Nat → Sess} {P : Nat → Nat → Nat → Prop} (hp : GPar par) (s mid : Nat) (l1 : L) (s' : Nat)
+    (hi1 : FInv False par P l1) : W s mid (par s).maxRtx (connected l1 s') = W s mid (par s).maxRtx l1 := by
+  obtain ⟨ca1, dq1, hg1, hle1, hdq1⟩ := hi1.sess s'
+  have e : ({ (l1.getS s') with est := true } : Sess) = { par s' with conActive := ca1, delayq := dq1 } := by
+    rw [hg1]
+    have := (hp s').1
+    cases hps : par s'
+    rw [hps] at this
+    simp_all
+  have hk := W_setS_keep s mid (par s).maxRtx l1 s' { (l1.getS s') with est := true } rfl
+  unfold connected
+  simp only []
+  rw [e] at hk ⊢
+  have hi2 : FInv False par P (l1.setS s' { par s' with conActive := ca1, delayq := dq1 }) :=
+    ⟨hi1.base, gsess_setS hi1.sess s' ca1 dq1 hle1 hdq1, hi1.nodes, hi1.pend, hi1.outs⟩
+  exact (drain_W hp s mid _ _ s' hi2).trans hk
+
 theorem release_W {par : Nat → Sess} {P : Nat → Nat → Nat → Prop} (hp : GPar par) (s mid : Nat) (l : L) (s' : Nat)
     (hi : FInv False par P l) : W s mid (par s).maxRtx (release l s') = W s mid (par s).maxRtx l := by
   obtain ⟨ca, dq, hg, hle, hdq⟩ := hi.sess s'
-  have hconn : ∀ l1 : L, FInv False par P l1 →
-      W s mid (par s).maxRtx (connected l1 s') = W s mid (par s).maxRtx l1 := by
-    intro l1 hi1
-    obtain ⟨ca1, dq1, hg1, hle1, hdq1⟩ := hi1.sess s'
-    have e : ({ (l1.getS s') with est := true } : Sess) = { par s' with conActive := ca1, delayq := dq1 } := by
-      rw [hg1]
-      have := (hp s').1
-      cases hps : par s'
-      rw [hps] at this
-      simp_all
-    have hk := W_setS_keep s mid (par s).maxRtx l1 s' { (l1.getS s') with est := true } rfl
-    unfold connected
-    simp only []
-    rw [e] at hk ⊢
-    have hi2 : FInv False par P (l1.setS s' { par s' with conActive := ca1, delayq := dq1 }) :=
-      ⟨hi1.base, gsess_setS hi1.sess s' ca1 dq1 hle1 hdq1, hi1.nodes, hi1.pend, hi1.outs⟩
-    exact (drain_W hp s mid _ _ s' hi2).trans hk
   unfold release
   simp only []
   split
@@ -897,8 +1049,57 @@ theorem release_W {par : Nat → Sess} {P : Nat → Nat → Nat → Prop} (hp : 
       rw [hg]
       exact ⟨hi.base, gsess_setS hi.sess s' (ca - 1) dq (by omega) hdq, hi.nodes, hi.pend, hi.outs⟩
     split
-    · exact (hconn _ h1).trans hk
+    · exact (connected_W hp s mid _ s' h1).trans hk
     · exact hk
+
+theorem budC_removeTok_le (s mid mx : Nat) : ∀ (l : List Node) (s' tok : Nat),
+    budC s mid mx (removeTok l s' tok).2 ≤ budC s mid mx l
+  | [], s', tok => by simp [removeTok]
+  | a :: r, s', tok => by
+    unfold removeTok
+    split
+    · split
+      · simp [budC]
+      · simp only [budC]; omega
+    · rcases hr : removeTok r s' tok with ⟨res, r'⟩
+      have := budC_removeTok_le s mid mx r s' tok
+      rw [hr] at this
+      simp only [budC]
+      simp only [] at this
+      omega
+
+theorem cancelToken_W {par : Nat → Sess} {P : Nat → Nat → Nat → Prop} (hp : GPar par) (s mid : Nat) :
+    ∀ (fuel : Nat) (l : L) (s' tok : Nat), FInv False par P l →
+      W s mid (par s).maxRtx (cancelToken fuel l s' tok) ≤ W s mid (par s).maxRtx l := by
+  intro fuel
+  induction fuel with
+  | zero => intro l s' tok _; exact Nat.le_refl _
+  | succ f ih =>
+    intro l s' tok hi
+    rcases hrm : removeTok l.q.nodes s' tok with ⟨_ | n, rest⟩
+    · have h1 : cancelToken (f + 1) l s' tok = l := by simp only [cancelToken, hrm]
+      rw [h1]; exact Nat.le_refl _
+    · obtain ⟨l1, hl1⟩ : ∃ l1, l1 = ({ l with q := { l.q with nodes := rest } } : L) := ⟨_, rfl⟩
+      obtain ⟨l2, hl2⟩ : ∃ l2, l2 = (if n.con then release l1 s' else l1) := ⟨_, rfl⟩
+      have h1 : cancelToken (f + 1) l s' tok = cancelToken f l2 s' tok := by
+        simp only [cancelToken, hrm, hl2, hl1]
+      rw [h1]
+      have hi1 : FInv False par P l1 := by rw [hl1]; exact removedTok_finv l s' tok n rest hrm hi
+      have hb := budC_removeTok_le s mid (par s).maxRtx l.q.nodes s' tok
+      rw [hrm] at hb
+      have e1 : W s mid (par s).maxRtx l1 ≤ W s mid (par s).maxRtx l := by
+        rw [hl1]
+        simp only [W]
+        show txC s mid l.out + budC s mid (par s).maxRtx rest + ((par s).maxRtx + 1) * midC mid (l.getS s).delayq ≤ _
+        simp only [] at hb
+        omega
+      have hk : W s mid (par s).maxRtx l2 = W s mid (par s).maxRtx l1 ∧ FInv False par P l2 := by
+        rw [hl2]
+        split
+        · exact ⟨release_W hp s mid _ s' hi1, (release_finv hp _ s' hi1 (futF _)).1⟩
+        · exact ⟨rfl, hi1⟩
+      have h3 := ih l2 s' tok hk.2
+      omega
 
 /-- `coap_retransmit` of a popped node spends one transmission of its budget, or gives up when none is left -/
 theorem retransmit_W {par : Nat → Sess} {P : Nat → Nat → Nat → Prop} (hp : GPar par) (s mid : Nat) (l : L) (n : Node)
@@ -1009,11 +1210,18 @@ theorem step_W {par : Nat → Sess} {P : Nat → Nat → Nat → Prop} (hp : GPa
     rw [W_emit_other _ _ _ _ _ (by intros; simp), hk]
     exact Nat.le_refl _
   | submit s' con m' r =>
-    obtain ⟨hcon, hT, h64⟩ := hok
-    subst hcon
     obtain ⟨ca, dq, hg, hle, hdq⟩ := hi.sess s'
     obtain ⟨hest, hopen, hns, h256⟩ := hp s'
     have hso : (l.getS s').sockOpen = true := by rw [hg]; exact hopen
+    cases con with
+    | false =>
+      have he : (l.getS s').est = true := by rw [hg]; exact hest
+      have hM : Msg.step l (.submit s' false m' r) =
+          (l.emit (.tx l.now s' m' 0 false)).emit (.sub (some m')) := by
+        simp [Msg.step, submit, hso, gate, he]
+      rw [hM, W_emit_other _ _ _ _ _ (by intros; simp), W_emit_other _ _ _ _ _ (by intros; simp)]
+      exact Nat.le_add_right _ _
+    | true =>
     by_cases hroom : ca < (par s').nstart
     · have hgt : gate (l.getS s') true = false := by
         have : ¬ ((l.getS s').conActive ≥ (l.getS s').nstart) := by rw [hg]; simp only []; omega
@@ -1132,10 +1340,42 @@ theorem step_W {par : Nat → Sess} {P : Nat → Nat → Nat → Prop} (hp : GPa
           finv_emit_other _ hf ⟨by intros; simp, by intros; simp⟩⟩
     rw [afterRx_W hp s mid _ hk1.2, hk1.1]
     exact hle1
-  | rxNon s' m' tok => exact absurd hok (by simp [EvG])
-  | rxBad s' m' => exact absurd hok (by simp [EvG])
+  | rxNon s' m' tok =>
+    obtain ⟨ca, dq, hg, hle, hdq⟩ := hi.sess s'
+    have hso : (l.getS s').sockOpen = true := by rw [hg]; exact (hp s').2.1
+    simp only [Msg.step, hso, if_true, accW, Nat.mul_zero, Nat.add_zero]
+    have hc := cancelToken_W hp s mid (l.q.nodes.length + 1) l s' tok hi
+    have hcf := (cancelToken_finv hp (l.q.nodes.length + 1) l s' tok hi (futF l)).1
+    have hfe : FInv False par P (rxNon l s' m' tok) := finv_emit_other _ hcf ⟨by intros; simp, by intros; simp⟩
+    have he : W s mid (par s).maxRtx (rxNon l s' m' tok) =
+        W s mid (par s).maxRtx (cancelToken (l.q.nodes.length + 1) l s' tok) :=
+      W_emit_other _ _ _ _ _ (by intros; simp)
+    rw [afterRx_W hp s mid _ hfe, he]
+    exact hc
+  | rxBad s' m' =>
+    obtain ⟨ca, dq, hg, hle, hdq⟩ := hi.sess s'
+    have hso : (l.getS s').sockOpen = true := by rw [hg]; exact (hp s').2.1
+    obtain ⟨hi1, _, _⟩ := removed_finv l s' m' hi (futF l)
+    have hle1 := W_removed_le s mid (par s).maxRtx l s' m'
+    simp only [Msg.step, hso, if_true, accW, Nat.mul_zero, Nat.add_zero]
+    have hk1 : W s mid (par s).maxRtx (rxBad l s' m') =
+        W s mid (par s).maxRtx ({ l with q := { l.q with nodes := (removeNode l.q.nodes s' m').2 } } : L) ∧
+        FInv False par P (rxBad l s' m') := by
+      unfold rxBad
+      rcases hrm : removeNode l.q.nodes s' m' with ⟨sent, rest⟩
+      rw [hrm] at hi1
+      cases sent with
+      | none => exact ⟨rfl, hi1⟩
+      | some n =>
+        exact ⟨(W_emit_other _ _ _ _ _ (by intros; simp)).trans (release_W hp s mid _ s' hi1),
+          finv_emit_other _ (release_finv hp _ s' hi1 (futF _)).1 ⟨by intros; simp, by intros; simp⟩⟩
+    rw [afterRx_W hp s mid _ hk1.2, hk1.1]
+    exact hle1
   | hold s' => exact absurd hok (by simp [EvG])
-  | connect s' => exact absurd hok (by simp [EvG])
+  | connect s' =>
+    simp only [Msg.step, accW, Nat.mul_zero, Nat.add_zero]
+    rw [connected_W hp s mid l s' hi]
+    exact Nat.le_refl _
   | disconnect s' => exact absurd hok (by simp [EvG])
 
 theorem run_W {par : Nat → Sess} {P : Nat → Nat → Nat → Prop} (hp : GPar par) (s mid : Nat) :
